@@ -48,6 +48,30 @@ CHECKS = {
          "Every supported cartridge type x ROM/RAM size code x every value to 24 control addresses with all windows read after each, DMA from every page, all 256x256 header pairs on differently sized images, odd-length images, random write/read/step histories and random-byte/grammar programs run in journaling worker processes; any panic or death after successful construction is a violation, and each of the 11 undefined opcodes is shown to stop the process deliberately.",
          "Construction = memory.New + cpu.New as gameboy.New performs them; undefined opcodes are never executed in-process (peek guard).",
          "DESIGN.md §4 C11"),
+ "C12": ("reference-model monitor: bounded-exhaustive operation sequences (tick / DIV / TIMA / TMA / TAC writes) from edge-structured start states, long random schedules, timer ROMs",
+         "Every operation sequence up to length 4 (quick) / 6 (thorough) over a 13-operation alphabet is run on the real Timer from 960 start states (every TAC, counter 1-4 cycles before each edge of the selected bit and around the FFFC/0000 wrap, TIMA near overflow); DIV, TIMA, TMA, TAC and the interrupt result are compared with a cycle-sampled reference after every operation; plus 4e6 random operations and the mooneye timer ROMs.",
+         "Cycle-sampled edge detection (imposed by the pinned unit tests); three corner cases the statement leaves open are counted as unspecified; the TLA+ model check mentioned in the quantifier is a different technique and not performed.",
+         "DESIGN.md §4 C12"),
+ "C13": ("reference-model monitor: LY and STAT mode compared after every machine cycle and LCDC write with a pure function of cycles-since-switch-on, under systematic and random LCD on/off schedules",
+         "The LCD is switched off at every cycle offset of nine selected lines (first and later frames) and on again after random gaps, and random schedules with redundant LCDC writes are run for several frames; every (line, cycle) cell of the frame is visited and compared.",
+         "Only the PPU is stepped; reference: first line 112 cycles, modes 2/3/0 at cycles 0/20/61, lines 144-153 mode 1.",
+         "DESIGN.md §4 C13"),
+ "C14": ("event monitor on IF bits 0-1 (read and cleared after every machine cycle) against the rising edges derived from the reference line/mode counter; each single STAT source x every LYC, plus on/off schedules",
+         "For each single STAT source (and none) x LYC 0-153 and out of range, three frames are run from switch-on and every machine cycle's VBlank/STAT requests are compared with the reference's rising edges (exactly once each, never while off); random on/off schedules add switch points at arbitrary cycles.",
+         "Single sources only; switch-on line OAM/LYC=0 and OAM at line 144 accepted either way.",
+         "DESIGN.md §4 C14"),
+ "C15": ("reference-renderer monitor: random scenes within the statement's side conditions, second frame compared pixel by pixel",
+         "1600 (quick) random scenes with dense four-colour tile data, both maps and addressing modes, scroll wrap, window edge positions, up to 40 objects (<= 10 per line, X-sorted) at every edge-crossing position with flips, palettes and priority; 3.7e7 pixels per quick run are compared with a first-principles reference composition and attributed to their source.",
+         "Scene registers/VRAM/OAM constant for the frame; 8x8 objects only.",
+         "DESIGN.md §4 C15"),
+ "C16": ("per-cycle OAM read monitor and final content comparison for every DMA source page, mid-transfer source modification and restarts at every cycle; OAM-DMA ROM verdicts",
+         "Every source page 00-F1 (ROM banks, VRAM, enabled/disabled cartridge RAM, work RAM, echo) with the LCD off and on: FE00-FEFF is read after every cycle (FF until completion, completion within 162 cycles, not before 160) and OAM compared with the source the harness wrote; transfers are restarted at every cycle 0-170 and source bytes are modified at least three cycles away from their copy time.",
+         "Exact per-byte copy cycle not asserted; pages F2-FF outside the statement.",
+         "DESIGN.md §4 C16"),
+ "C17": ("per-cycle OAM change attribution under the lock-step follower: generated pointer-walking programs with the LCD switched off at every cycle offset of four lines, LCD-on programs, oam_bug ROMs",
+         "Every machine cycle in which the 160 OAM bytes change is attributed to a predicted CPU write, a running DMA transfer, or LCD-on mode 2; the LCD is switched off at each of 456 (line, offset) points while programs drive BC/DE/HL/SP through FE00-FEFF.",
+         "OAM observed through a snapshot hook; any change in LCD-on mode 2 is accepted (corruption patterns are not part of the statement).",
+         "DESIGN.md §4 C17"),
  "C22": ("reference-model monitor over the complete reachable controller state space (BFS), real Controller driven through Mapper FF00",
          "Every transition of the reachable joypad state space (576 states x 272 events) is executed on the real controller and JOYP compared with a 10-line reference under all four select values; exhaustive for the finite space, so the residual risk is the reference itself.",
          "Trusts the reference joypad (held sets, active-low, AND of selected groups) as the reading of the statement.",
